@@ -221,7 +221,14 @@ func c01Case(r *kit.Run, idx int64, rng *rand.Rand) {
 		case "Map":
 			wantInvoked, wantOut = true, true
 			ordered = w == 1
-			out := fun.Map(c01Source(n, srcSp, seed), func(ctx context.Context, id int) (int, error) { _ = proc(ctx, id); return id, nil }, wopt)
+			mapFn := func(ctx context.Context, id int) (int, error) { _ = proc(ctx, id); return id, nil }
+			var out *fun.Iterator[int]
+			if seed%4 == 1 {
+				out = itertool.Map(c01Source(n, srcSp, seed), mapFn, wopt)
+				desc["through"] = "itertool.Map"
+			} else {
+				out = fun.Map(c01Source(n, srcSp, seed), mapFn, wopt)
+			}
 			obs.got(drain(ctx, out, conSp, seed, n)...)
 			obs.closeErr = out.Close()
 		case "ParallelBuffer":
@@ -288,6 +295,10 @@ func c01Case(r *kit.Run, idx int64, rng *rand.Rand) {
 				return id, nil
 			})
 			out := gen.GenerateParallel(wopt)
+			if seed%4 == 1 {
+				out = itertool.Generate(gen, wopt)
+				desc["through"] = "itertool.Generate"
+			}
 			obs.got(drain(ctx, out, conSp, seed, n)...)
 			obs.closeErr = out.Close()
 			ordered = false
